@@ -115,6 +115,68 @@ func init() {
 				}
 			}
 		}
+		// A'. capacity of the digit count: declared maximum above what the prefix can express, values at capacity and capacity+1
+		for _, fam := range prefFamilies {
+			for _, w := range []string{"L", "LL", "LLL"} {
+				pref := fam + "." + w
+				c := prefCapacity(pref)
+				if c > 1100 {
+					continue
+				}
+				for _, kind := range []string{"String", "Binary"} {
+					n := &gnode{kind: kind, enc: Pick(r, []string{"ASCII", "Binary", "EBCDIC"}), pref: pref, padK: "N", L: c + 3}
+					if kind == "Binary" {
+						n.enc = "Binary"
+					}
+					n.term = n.primTerm()
+					for _, vl := range []int{c - 1, c, c + 1, c + 2} {
+						alpha := []byte("ABCDEFGHIJ")
+						val := r.From(alpha, vl)
+						v := L(A("S"), X(val))
+						if kind == "Binary" {
+							v = L(A("B"), X(val))
+						}
+						emitFieldBattery(r, n, v, 0, emit)
+					}
+				}
+				// a composite whose total length is at / one over the capacity of its prefix
+				sub := &gnode{kind: "String", enc: "ASCII", pref: "ASCII.LLLL", padK: "N", L: 2000}
+				sub.term = sub.primTerm()
+				comp := L(A("C"), A(pref), I(c+3), L(A("T"), I(0), A("nil"), A("N"), X([]byte{0}), A("ByInt"), A("0"), A("nil")), L(L(X([]byte("1")), sub.term)))
+				for _, total := range []int{c, c + 1} {
+					if total-4 < 0 {
+						continue
+					}
+					v := L(A("C"), L(L(X([]byte("1")), L(A("S"), X(r.From([]byte("xyz"), total-4))))))
+					emitFieldBattery(r, &gnode{term: comp, comp: true}, v, 0, emit)
+				}
+			}
+		}
+		// A''. encoding boundaries of the length itself: decades, byte boundary, BER short/long form
+		for _, pref := range allVarPrefixers() {
+			c := prefCapacity(pref)
+			for _, b := range []int{10, 100, 128, 256} {
+				for _, vl := range []int{b - 1, b, b + 1} {
+					if vl > c {
+						continue
+					}
+					n := &gnode{kind: "String", enc: Pick(r, []string{"ASCII", "EBCDIC", "Binary"}), pref: pref, padK: "N", L: 300}
+					if n.L > c {
+						n.L = c
+					}
+					n.term = n.primTerm()
+					emitFieldBattery(r, n, L(A("S"), X(r.From([]byte("abcdefgh"), vl))), 0, emit)
+					// the same total as the body of a composite under this prefix
+					if vl >= 4 {
+						sub := &gnode{kind: "String", enc: "ASCII", pref: "ASCII.LLLL", padK: "N", L: 2000}
+						sub.term = sub.primTerm()
+						comp := L(A("C"), A(pref), I(n.L), L(A("T"), I(0), A("nil"), A("N"), X([]byte{0}), A("ByInt"), A("0"), A("nil")), L(L(X([]byte("1")), sub.term)))
+						v := L(A("C"), L(L(X([]byte("1")), L(A("S"), X(r.From([]byte("xyz"), vl-4))))))
+						emitFieldBattery(r, &gnode{term: comp, comp: true}, v, 0, emit)
+					}
+				}
+			}
+		}
 		// B. random primitives with larger lengths and capacities
 		nb := 600
 		if thorough {
